@@ -258,6 +258,43 @@ def antimeridian_edge_probes(mon: Monitor) -> None:
             mon.obs["antimeridian_edge_probes"] += 1
 
 
+def spelling_probes(mon: Monitor, rng: random.Random, n: int) -> None:
+    """The same CRS written in two ways on the two rasters (code vs WKT vs pyproj object vs lower case): still one CRS, still the exact pixel-to-pixel relation, wherever the
+    rasters lie - including geographic grids that run 0..360 or a few pixels past +-180 / +-90, which is where a detour through lon/lat would cut them."""
+    import pyproj
+    from affine import Affine
+    from odc.geo.geobox import GeoBox
+    from odc.geo.overlap import compute_reproject_roi
+
+    p4326, p3857 = pyproj.CRS.from_epsg(4326), pyproj.CRS.from_epsg(3857)
+    sp = {"4326": ["EPSG:4326", "epsg:4326", p4326.to_wkt(), p4326, 4326], "3857": ["EPSG:3857", p3857.to_wkt(), p3857, "epsg:3857"]}
+    fixed = [
+        (GeoBox((180, 360), Affine(1.0, 0, 0.0, 0, -1.0, 90.0), sp["4326"][0]), GeoBox((60, 80), Affine(0.25, 0, 170.0, 0, -0.25, 10.0), sp["4326"][2])),     # 0..360 grid, window 170E..190E
+        (GeoBox((180, 360), Affine(1.0, 0, 0.0, 0, -1.0, 90.0), sp["4326"][2]), GeoBox((90, 180), Affine(2.0, 0, 0.0, 0, -2.0, 90.0), sp["4326"][0])),      # both 0..360, scale 2
+        (GeoBox((188, 368), Affine(1.0, 0, -184.0, 0, -1.0, 94.0), sp["4326"][3]), GeoBox((180, 360), Affine(1.0, 0, -180.0, 0, -1.0, 90.0), sp["4326"][0])),  # padded by 4 px past the limits
+        (GeoBox((180, 360), Affine(1.0, 0, -180.0, 0, -1.0, 90.0), sp["4326"][0]), GeoBox((188, 368), Affine(1.0, 0, -184.0, 0, -1.0, 94.0), sp["4326"][1])),
+        (GeoBox((100, 100), Affine(0.1, 0, 175.0, 0, -0.1, -85.0), sp["4326"][4]), GeoBox((120, 130), Affine(0.1, 0, 174.0, 0, -0.1, -84.0), sp["4326"][2])),   # past 180 E and 90 S
+        (GeoBox((64, 64), Affine(1000.0, 0, 2.0e7, 0, -1000.0, 1.0e5), sp["3857"][0]), GeoBox((80, 70), Affine(1000.0, 0, 2.0e7 - 5000.0, 0, -1000.0, 1.1e5), sp["3857"][1])),  # past the web-mercator edge
+    ]
+    for a, b in fixed:
+        for kw in ({}, {"padding": 1}, {"align": 4}):
+            call(compute_reproject_roi, a, b, **kw)
+            mon.obs["same_crs_two_spellings_probes"] += 1
+    for _ in range(n):
+        src, dst, _k, _l = pairs.same_crs_pair(rng, binary_exact=True)
+        fam = rng.choice(["4326", "3857"])
+        sa, sb = rng.sample(sp[fam], 2)
+        sc = 1.0 if fam == "3857" else 0.01
+        A = lambda g: Affine(g.affine.a * sc, 0, g.affine.c * sc + (rng.choice([0, 170, -178, 355]) if fam == "4326" else 0), 0, g.affine.e * sc, g.affine.f * sc)
+        off = A(src).c - src.affine.c * sc
+        a_ = GeoBox(src.shape, A(src), sa)
+        b_ = GeoBox(dst.shape, Affine(dst.affine.a * sc, 0, dst.affine.c * sc + off, 0, dst.affine.e * sc, dst.affine.f * sc), sb)
+        if abs(dst.affine.b) > 0 or abs(dst.affine.d) > 0:
+            continue
+        call(compute_reproject_roi, a_, b_)
+        mon.obs["same_crs_two_spellings_pairs"] += 1
+
+
 def drive_oneoff(mon: Monitor, rng: random.Random, n: int) -> None:
     """A loader's life: a stream of rasters, each in its own made-up local projection (per-tile transverse Mercator / LAEA), planned into a lon/lat grid and back, the
     CRS objects dropped afterwards.  Whatever the library caches along the way (parsed CRSs, transformers keyed by object identity), plan number 300 is judged like plan
@@ -295,6 +332,7 @@ def run(mon: Monitor, tier: str, seed: int, shard: int, nshards: int) -> None:
             antimeridian_edge_probes(mon)
         drive(mon, rng, 3500 if q else 60000, 500 if q else 8000)
         drive_oneoff(mon, random.Random(seed * 1000 + shard + 103), 300 if q else 1200)
+        spelling_probes(mon, random.Random(seed * 1000 + shard + 104), 200 if q else 3000)
         mon.notes["indirect"] = "compute_reproject_roi has no caller inside odc-geo at this commit (it is public API for loaders); only direct calls are observed"
         for pt, n in [("compute_reproject_roi", 2500), ("compute_reproject_roi|same-crs|contained", 100), ("compute_reproject_roi|same-crs|partial", 300), ("compute_reproject_roi|same-crs|disjoint", 100),
                       ("compute_reproject_roi|same-crs|touching", 20), ("compute_reproject_roi|cross-crs|partial", 50), ("compute_reproject_roi|cross-crs|contained", 10),
